@@ -18,7 +18,7 @@ OPS = {
     "*":      ("*",      "1",  "{x}",     True,  True,  "*"),
     "**":     ("**",     None, None,      True,  True,  "**"),
     "/":      ("/",      None, "1 / {x}", True,  True,  "*"),
-    "//":     ("//",     None, None,      True,  True,  "//"),   # docstring names no aggregator => "the same as the original operator"
+    "//":     ("//",     None, None,      True,  True,  "*"),    # hy.pyops.// docstring: "Aggregator for augmented assignment: *" (added by a fix: commit; checked against the live docstring by C03's arity shard)
     "%":      ("%",      None, None,      True,  False, None),
     "@":      ("@",      None, None,      True,  True,  "@"),
     "<<":     ("<<",     None, None,      True,  True,  "+"),
